@@ -413,6 +413,13 @@ def gen_fraginit(rng, tier):
                 calls = [{'op': 'fi'}, {'op': 'fw', 'pts': 0, 'dts': 0, 'data': pad(rng, 5), 'sync': True},
                          {'op': 'fw', 'pts': 3000, 'dts': 3000, 'data': pad(rng, 2), 'sync': False}, {'op': 'fi'}, {'op': 'ff'}, {'op': 'fi'}]
                 out.append({'kind': 'frag', 'cfg': cfg, 'calls': calls})
+    # every H.264 profile_idc class (the avcC of the High profiles continues after the parameter sets)
+    for prof in (66, 77, 88, 100, 110, 122, 144, 244, 44):
+        for via in ('builder', 'config'):
+            cfg = {'vc': 'h264', 'w': 640, 'h': 480, 'timescale': 90000, 'fragms': 2000, 'via': via, 'unit': 1, 'unit1': True,
+                   'judge_config': True, 'must_build': True, 'w32': W30, 'i32': W30, 'sps': [0x67, prof, 0x00, 0x28, 0xac, 0x2b], 'pps': list(PPS_A),
+                   'facets': {'bytes': False, 'timing': False, 'tree': True, 'raw': True}}
+            out.append({'kind': 'frag', 'cfg': cfg, 'calls': [{'op': 'fi'}]})
     # field-width boundaries (C16): parameter sets of 65535 / 65536 bytes, dimensions 65535 / 65536
     for vc in ('h264', 'h265'):
         for n in (65535, 65536):
